@@ -10,14 +10,20 @@ import (
 	"strings"
 )
 
+// usage: fontgen [<glob below typesetting-utils@*/> <package> <variable>]
 func main() {
 	name := "SourceSansVariable-Roman.modcomp.ttf"
+	rel, pkg, varName := "harfbuzz/fonts/"+name, "font", "vfFontBytes"
+	if len(os.Args) == 4 {
+		rel, pkg, varName = os.Args[1], os.Args[2], os.Args[3]
+		name = filepath.Base(rel)
+	}
 	out, _ := exec.Command("go", "env", "GOMODCACHE").Output()
 	cache := strings.TrimSpace(string(out))
 	if cache == "" {
 		cache = "/root/go/pkg/mod"
 	}
-	matches, _ := filepath.Glob(filepath.Join(cache, "github.com/go-text/typesetting-utils@*/harfbuzz/fonts", name))
+	matches, _ := filepath.Glob(filepath.Join(cache, "github.com/go-text/typesetting-utils@*", rel))
 	if len(matches) == 0 {
 		fmt.Fprintln(os.Stderr, "font not found in module cache")
 		os.Exit(1)
@@ -27,7 +33,7 @@ func main() {
 		fmt.Fprintln(os.Stderr, err)
 		os.Exit(1)
 	}
-	fmt.Printf("//go:build verif\n\npackage font\n\n// %s (%d bytes), embedded by /verif/tools/fontgen\nvar vfFontBytes = []byte{", name, len(b))
+	fmt.Printf("//go:build verif\n\npackage %s\n\n// %s (%d bytes), embedded by /verif/tools/fontgen\nvar %s = []byte{", pkg, name, len(b), varName)
 	for i, c := range b {
 		if i%24 == 0 {
 			fmt.Print("\n\t")
